@@ -583,3 +583,146 @@ Definition fail_holds (c : c04fail) : bool := restored (fail_t0 c) (binterp (q_o
 
 Definition c04_newfail_mismatches (l : list c04fail) : list Z := bad_indices (fun c => negb (fail_agrees c)) l.
 Definition c04_newfail_violations (l : list c04fail) : list Z := bad_indices (fun c => negb (fail_holds c)) l.
+
+(* ---------- a shutdown started by the library that overlaps the application ---------- *)
+(* The termination-signal handler and the panic recovery run Close ON THE INPUT GOROUTINE.  Close posts
+   QuitEvent first and then, inside Suspend, asks the parser to stop, writes a DA1 query and waits in
+   parser.WaitClose() until the terminal's answer wakes the parser.  Until that answer arrives the
+   application's goroutine runs concurrently, and the usual reaction to QuitEvent is its own vx.Close().
+   Protocol state "closing in progress": the Close on the input goroutine is split at the parser wait
+   ([close_begin] / [close_end]); in between the application issues Close calls on the shared state. *)
+
+(* a script up to its first parser wait, and from it *)
+Fixpoint before_wait (sc : script) : script :=
+  match sc with
+  | [] => []
+  | (c, s) :: r => match s with SParserWait => [] | _ => (c, s) :: before_wait r end
+  end.
+Fixpoint from_wait (sc : script) : script :=
+  match sc with
+  | [] => []
+  | (c, s) :: r => match s with SParserWait => (c, s) :: r | _ => from_wait r end
+  end.
+
+(* [run_top_aux] on a prefix of a script: the deferred calls collected so far and the state *)
+Fixpoint run_pre (sc : script) (defers : list fname) (m : mst) : list fname * mst :=
+  match sc with
+  | [] => (defers, m)
+  | (c, s) :: r =>
+      if ceval (s_fl m) c && negb (s_hung m) then
+        match s with
+        | SCall f => run_pre r defers (run_leaf (leaf_script f) m)
+        | SDefer f => run_pre r (f :: defers) m
+        | _ => run_pre r defers (run_step s m)
+        end
+      else run_pre r defers m
+  end.
+
+Definition is_suspend_call (c : callname) : bool := match c with CnSuspend => true | _ => false end.
+Fixpoint calls_before_suspend (cs : list callname) : list callname :=
+  match cs with [] => [] | c :: r => if is_suspend_call c then [] else c :: calls_before_suspend r end.
+Fixpoint calls_after_suspend (cs : list callname) : list callname :=
+  match cs with [] => [] | c :: r => if is_suspend_call c then r else calls_after_suspend r end.
+
+(* Close on the input goroutine (its guard passed) up to the point where Suspend waits for the parser:
+   the flag is set here when the code sets it before calling Suspend ([close_flag_early], translated) *)
+Definition close_begin (o : opts) (x : sst) : sst * list fname :=
+  let m0 := run_calls (calls_before_suspend close_calls) o (s_fl (x_m x)) (x_m x) in
+  let '(ds, m1) := run_pre (before_wait suspend_script) [] m0 in
+  (mkS m1 (x_shape_next x) (x_shape_last x) (x_gnext x) (x_glast x) (x_suspended x) (close_flag_early || x_closed x), ds).
+
+(* ... and from there, once the terminal has answered *)
+Definition close_end (o : opts) (x : sst) (ds : list fname) : sst :=
+  let m2 := run_top_aux (from_wait suspend_script) ds (x_m x) in
+  let m3 := run_calls (calls_after_suspend close_calls) o (s_fl (x_m x)) m2 in
+  mkS m3 (x_shape_next x) (x_shape_last x) (x_gnext x) (x_glast x) true true.
+
+(* Close called by the application while the Close of the input goroutine waits.  With the flag already
+   set its guard returns at once.  Otherwise it enters Suspend a second time: parser.Close() sends on a
+   channel of capacity one that still holds the first request (the parser sits in its read, waiting for the
+   very answer the terminal has not given), and after the answer two goroutines wait on parser.closed,
+   which is written exactly once -- one of the two Close calls never returns.  None = does not return. *)
+Definition app_close (o : opts) (y : sst) : option sst :=
+  if close_guarded && x_closed y then Some (do_close o y) else None.
+
+Fixpoint idle_chunks (n : nat) : list (Z * list otok) :=
+  match n with O => [] | S k => (0, []) :: idle_chunks k end.
+
+(* [n] Close calls of the application, one after the other; once one does not return the rest is never issued *)
+Fixpoint app_closes (o : opts) (n : nat) (y : sst) : list (Z * list otok) * (sst * bool) :=
+  match n with
+  | O => ([], (y, false))
+  | S k =>
+      match app_close o (clear_out y) with
+      | Some y1 => let '(l, r) := app_closes o k y1 in ((0, s_out (x_m y1)) :: l, r)
+      | None => ((2, []) :: idle_chunks k, (y, true))
+      end
+  end.
+
+Fixpoint ops_state (o : opts) (ops : list op) (x : sst) : sst :=
+  match ops with [] => x | p :: r => ops_state o r (run_op o p (clear_out x)) end.
+
+(* the chunks of: the signal / panic (until its Close waits), [during] Close calls of the application,
+   the terminal's answer (the first Close runs to its end), [after] more Close calls.  None: the state is
+   not a running one (outside this scenario class; shutdown while suspended is the recorded finding) *)
+Definition overlap_tail (o : opts) (x : sst) (during after : nat) : option (list (Z * list otok)) :=
+  if s_hung (x_m x) || x_suspended x || x_closed x then None else
+  let '(y, ds) := close_begin o (clear_out x) in
+  let '(dur, (y1, blocked)) := app_closes o during y in
+  let z := close_end o (clear_out y1) ds in
+  let rel := (if s_hung (x_m z) then 2 else 0, s_out (x_m z)) in
+  Some ((0, s_out (x_m y)) :: dur ++ rel ::
+        (if blocked then idle_chunks after else run_ops o (repeat OpClose after) z)).
+
+Definition overlap_chunks (o : opts) (det : flags) (d : data) (rows cols : Z) (ops : list op) (during after : nat)
+  : option (list (Z * list otok)) :=
+  let x0 := start_session o det d rows cols in
+  match overlap_tail o (ops_state o ops x0) during after with
+  | Some tl => Some (session_chunks o det d rows cols ops ++ tl)
+  | None => None
+  end.
+
+(* third stream: the overlapped shutdown, observed in a child process (real SIGTERM / injected panic,
+   a console that withholds the DA1 answer until the application's Close calls have been issued) *)
+Record c04ovl := mkOvl {
+  v_case : c04case;                  (* options, capabilities, the session before the signal and its observation *)
+  v_trigger : op;                    (* OpKill or OpPanic *)
+  v_during : Z; v_after : Z;         (* Close calls of the application while the first Close waits / after it finished *)
+  v_obs : list (Z * list seg) }.     (* trigger, each overlapping Close, the answer, each later Close;
+                                        outcome 2 = had not returned when the scenario (or the process) ended *)
+
+Definition is_trigger (p : op) : bool := match p with OpKill | OpPanic => true | _ => false end.
+
+Definition ovl_agrees (c : c04ovl) : bool :=
+  let k := v_case c in
+  case_agrees k && is_trigger (v_trigger c) &&
+  match overlap_chunks (k_opts k) (k_det k) (case_data k) (k_rows k) (k_cols k) (k_ops k)
+                       (Z.to_nat (v_during c)) (Z.to_nat (v_after c)) with
+  | Some all =>
+      chunks_eqb all (k_obs k ++ v_obs c)
+      && term_eqb (sem_toks (flat_map snd all) (case_t0 k)) (binterp (flat_map snd (k_obs k ++ v_obs c)) (case_t0 k))
+  | None => false
+  end.
+
+(* the property on the observation alone: nothing hangs -- neither the Close of the signal / panic path
+   nor any Close of the application, overlapping or later ("a second Close is harmless") -- and once the
+   first Close has finished, and after every later Close, the terminal is back where it was *)
+Fixpoint ovl_obs_ok (t0 : term) (exits : list bool) (obs : list (Z * list seg)) (sofar : list seg) : bool :=
+  match exits, obs with
+  | e :: r, (code, segs) :: obs' =>
+      let sofar' := sofar ++ segs in
+      (code =? 0) && (if e then restored t0 (binterp sofar' t0) else true) && ovl_obs_ok t0 r obs' sofar'
+  | [], [] => true
+  | _, _ => false
+  end.
+
+Definition tail_exits (during after : nat) : list bool :=
+  false :: repeat false during ++ true :: repeat true after.
+
+Definition ovl_holds (c : c04ovl) : bool :=
+  let k := v_case c in
+  case_holds k && is_trigger (v_trigger c)
+  && ovl_obs_ok (case_t0 k) (tail_exits (Z.to_nat (v_during c)) (Z.to_nat (v_after c))) (v_obs c) (flat_map snd (k_obs k)).
+
+Definition c04_overlap_mismatches (l : list c04ovl) : list Z := bad_indices (fun c => negb (ovl_agrees c)) l.
+Definition c04_overlap_violations (l : list c04ovl) : list Z := bad_indices (fun c => negb (ovl_holds c)) l.
